@@ -988,7 +988,7 @@ func runC08(cfg *hx.Config) {
 		"combinations with an overridden status; big error responses (message / stackTrace of 64 KiB, 1 MiB - 1 KiB, 1 MiB, 3 MiB, compared field by field at the " +
 		"client, oracle only)} x mounting {bare handler, ServeMux, prefixed server} (full product on the bare handler, a " +
 		"subset on the others), in-process through the serialized request plus a real-socket sample; servers with filters (lists of 1-3 filters whose PreRequest / PostRequest " +
-		"pass, add context values and response headers, fail with a plain error, fail with an *ErrorResponse) x every method x {value, overridden status, plain error, panic, typed nil, " +
+		"pass, add context values and response headers, replace the request context with a cancelled one / one past its deadline, fail with a plain error, fail with an *ErrorResponse) x every method x {value, overridden status, plain error, panic, typed nil, " +
 		"nil element, four error responses}; overridden statuses 202, 200 (the status every request starts with), 201, 203, 204 (methods without result); malformed requests (bad key, missing required " +
 		"parameter, undecodable body, unexpected body) per method; statuses outside 100..999 as probes. non-trivial = any outcome other than the plain value; " +
 		"distinct by (method, outcome, fields)")
